@@ -1,6 +1,7 @@
 package main
 
 import (
+	"sync/atomic"
 	"runtime"
 	"fmt"
 	"sort"
@@ -158,6 +159,9 @@ func withWatchdog(timeout time.Duration, f func()) bool {
 	}
 }
 
+var spinSink int64
+var meetFlag int32
+
 func c14(c *Ctx) {
 	if c.Race {
 		c14race(c)
@@ -184,7 +188,26 @@ func c14(c *Ctx) {
 		rec := &lcRecorder{t0: time.Now()}
 		var pmu sync.Mutex
 		search.VerifTraceHook = func(ev string, a, b int64) { rec.add(ev, a, b, "") }
+		var meetMu sync.Mutex
+		var meetCh chan struct{}
+		pr2 := SubRng(c.Seed, "c14/meet", h)
 		search.VerifPointHook = func(name string) {
+			if name == "timer-before-fire" {
+				// rendezvous: a controller waiting for this moment issues its stop right now
+				meetMu.Lock()
+				ch := meetCh
+				meetCh = nil
+				meetMu.Unlock()
+				if ch != nil {
+					atomic.StoreInt32(&meetFlag, 1) // a controller spinning on this flag goes at once
+					close(ch)
+					// vary the alignment of the two stop requests on the scale of nanoseconds
+					for i, n := 0, pr2.Intn(400); i < n; i++ {
+						spinSink++
+					}
+					return
+				}
+			}
 			pmu.Lock()
 			d := delays[pr.Intn(len(delays))]
 			pmu.Unlock()
@@ -263,6 +286,20 @@ func c14(c *Ctx) {
 					deadlocks++
 					blocked = true
 					s.StopSearch()
+					return false
+				case <-time.After(30 * time.Second):
+				}
+			}
+			if !ok && name == "stop" && enters > sends {
+				// StopSearch has been blocking for 20 s while a search runs.  Ask again from
+				// another goroutine: if that ends the search and releases the first call, the
+				// first stop request was lost (decided by this causal order, not by the 20 s).
+				go s.StopSearch()
+				select {
+				case <-done:
+					rep.Viol("stop:request-lost", fmt.Sprintf("StopSearch was called while a search was running, did not return for 20 s, and returned only after a second stop request was made from another goroutine; history %v", ops), map[string]interface{}{"history": h, "ops": ops})
+					deadlocks++
+					blocked = true
 					return false
 				case <-time.After(30 * time.Second):
 				}
@@ -373,6 +410,29 @@ func c14(c *Ctx) {
 					rec.add("issearching-value", map[bool]int64{false: 0, true: 1}[v], 0, "")
 				})
 				call("stop", func() { s.StopSearch() })
+			case x < 95:
+				// a stop request issued in the very moment the search's own timer fires
+				call("stop", func() { s.StopSearch() })
+				if blocked {
+					break
+				}
+				ch := make(chan struct{})
+				meetMu.Lock()
+				meetCh = ch
+				meetMu.Unlock()
+				start("movetime")
+				if blocked {
+					break
+				}
+				select {
+				case <-ch:
+					rep.Inc("stop_meets_timer_fire")
+				case <-time.After(2 * time.Second):
+				}
+				call("stop", func() { s.StopSearch() })
+				meetMu.Lock()
+				meetCh = nil
+				meetMu.Unlock()
 			case x < 97:
 				// a timed search that ends at once by itself (single legal move), directly
 				// followed by a search without a timer of its own: the first one's timer
@@ -397,6 +457,45 @@ func c14(c *Ctx) {
 				call("stop", func() { s.StopSearch() })
 			default:
 				time.Sleep(time.Duration(r.Intn(8000)) * time.Microsecond)
+			}
+		}
+		if !blocked && h%4 == 2 {
+			// a burst of stop requests that meet the firing timer
+			for t := 0; t < c.Size(12, 400) && !blocked; t++ {
+				ch := make(chan struct{})
+				atomic.StoreInt32(&meetFlag, 0)
+				meetMu.Lock()
+				meetCh = ch
+				meetMu.Unlock()
+				forceRoot = r.Intn(len(lcRoots) - 1)
+				start("movetime")
+				forceRoot = -1
+				if blocked {
+					break
+				}
+				// busy-wait for the timer (no scheduler wake-up in between), then stop at once:
+				// the call is made directly, without the bookkeeping of call()
+				t0 := time.Now()
+				for k := 0; atomic.LoadInt32(&meetFlag) == 0; k++ {
+					if k&0xFFFF == 0 && time.Since(t0) > 2*time.Second {
+						break
+					}
+				}
+				if atomic.LoadInt32(&meetFlag) == 1 {
+					rep.Inc("stop_meets_timer_fire")
+					for i, n := 0, r.Intn(400); i < n; i++ {
+						spinSink++
+					}
+					s.StopSearch()
+				}
+				select {
+				case <-ch:
+				default:
+				}
+				call("stop", func() { s.StopSearch() })
+				meetMu.Lock()
+				meetCh = nil
+				meetMu.Unlock()
 			}
 		}
 		if !blocked {
